@@ -50,7 +50,8 @@ inductive FileOp where
 inductive DupSrc where
   | closeIt            -- `-`
   | fd (n : Fd)
-  | malformed          -- not an integer
+  | malformed          -- not an integer (or one that does not fit `i32`)
+  | negOne             -- `-1`: parses, and is never an open descriptor
   deriving DecidableEq, Repr
 
 inductive Body where
@@ -74,8 +75,8 @@ inductive ErrCause where
   | reservedFd (fd : Fd)
   | openFile (e : Errno)
   | malformedFd
-  | unreadableFd (fd : Fd)
-  | unwritableFd (fd : Fd)
+  | unreadableFd (fd : Int)     -- the parsed operand (`RawFd`; may be negative)
+  | unwritableFd (fd : Int)
   | tmpUnavailable (e : Errno)
   | unsupported
   | nulByte
@@ -138,8 +139,9 @@ def isRegularFd (o : Oracle W) (w : W) (t : FdTable) (fd : Fd) : Bool :=
   | some e => o.isRegular w e.ofd
   | none => false
 
-def flagsExcl : OpenArgs := ⟨.wo, true, false, false, true⟩
-def flagsPlainWrite : OpenArgs := ⟨.wo, false, false, false, false⟩
+/-- arguments of the two `open` calls of `open_file_noclobber` (re-extracted from the Rust source) -/
+def flagsExcl : OpenArgs := noclobberFirst
+def flagsPlainWrite : OpenArgs := noclobberSecond
 
 /-- `open_file_noclobber`: `O_CREAT|O_EXCL` first; on EEXIST a plain open, refused when the file
     turns out to be regular -/
@@ -161,6 +163,8 @@ def copyFd (o : Oracle W) (w : W) (t : FdTable) (src : DupSrc) (input : Bool) : 
   match src with
   | .closeIt => { w := w, t := t, r := .ok .closed }
   | .malformed => { w := w, t := t, r := .error .malformedFd }
+  -- `ofd_access(Fd(-1))` fails: `is_fd_valid` is false
+  | .negOne => { w := w, t := t, r := .error (if input then .unreadableFd (-1) else .unwritableFd (-1)) }
   | .fd n =>
     match t.get n with
     | none => { w := w, t := t, r := .error (if input then .unreadableFd n else .unwritableFd n) }
@@ -268,6 +272,18 @@ def performRedirs (o : Oracle W) (w : W) (t : FdTable) : List Redir → GuardRun
       { performRedirs o (perform o w t r).w (perform o w t r).t rs with
         saved := s :: (performRedirs o (perform o w t r).w (perform o w t r).t rs).saved }
 
+/-- `RedirGuard::perform_redir` called item by item, as `perform_redirs` does: the world and table
+    after every call, the failing one included (the harness's `rg` built-in looks at the process
+    table after each call).  `performSteps_prefix` (Guard.lean): entry `i` is the state
+    `performRedirs` reaches on the first `i+1` items. -/
+def performSteps (o : Oracle W) (w : W) (t : FdTable) : List Redir → List (W × FdTable)
+  | [] => []
+  | r :: rs =>
+    match (perform o w t r).r with
+    | .error _ => [((perform o w t r).w, (perform o w t r).t)]
+    | .ok _ =>
+      ((perform o w t r).w, (perform o w t r).t) :: performSteps o (perform o w t r).w (perform o w t r).t rs
+
 /-- one iteration of the loop in `undo_redirs` -/
 def undoOne (t : FdTable) (s : SavedFd) : FdTable :=
   match s.save with
@@ -298,13 +314,14 @@ def moveFdInternal (o : Oracle W) (w : W) (t : FdTable) (src : Fd) : W × FdTabl
   | .ok (n, t1) => ((o.deny w).1, t1.close src, some n)
   | .error _ => ((o.deny w).1, if moveClosesOnFailure then t.close src else t, none)
 
-/-- `yash-builtin/src/source/semantics.rs` `open_file`: `open(path, ReadOnly, O_CLOEXEC)` on the
-    lowest free descriptor (EMFILE checked first), then `move_fd_internal` -/
+/-- `yash-builtin/src/source/semantics.rs` `open_file`: `open(path, ReadOnly, O_CLOEXEC)` (arguments
+    re-extracted: `dotOpenArgs`, `dotOpenCloexec`) on the lowest free descriptor (EMFILE checked first),
+    then `move_fd_internal` -/
 def openScript (o : Oracle W) (w : W) (t : FdTable) (path : Nat) : W × FdTable × Option Fd :=
   if (o.deny w).2 || !t.inLimit (t.minUnused 0) then ((o.deny w).1, t, none) else
-  match o.resolve (o.deny w).1 { path := path, args := fileIn } with
+  match o.resolve (o.deny w).1 { path := path, args := dotOpenArgs } with
   | (w1, .error _) => (w1, t, none)
   | (w1, .ok ofd) =>
-    moveFdInternal o w1 (t.put (t.minUnused 0) (some { ofd := ofd, cloexec := true })) (t.minUnused 0)
+    moveFdInternal o w1 (t.put (t.minUnused 0) (some { ofd := ofd, cloexec := dotOpenCloexec })) (t.minUnused 0)
 
 end YashModel.Redir
